@@ -3,6 +3,8 @@ import VyxalModel.Model.Encoding
 import VyxalModel.Model.Number
 import VyxalModel.Model.Strings
 import VyxalModel.Model.Transpile
+import VyxalModel.Model.Placed
+import VyxalModel.Model.WFPy
 import VyxalModel.Model.PyDump
 import VyxalModel.Gen.Elements
 import VyxalModel.Gen.Modifiers
@@ -37,6 +39,16 @@ def transpileCmd (dict : Bool) (src : List Nat) : String :=
   | .ok tree => match transpileAst (genEnv dict) tree with
     | .ok py => PyAst.dumpSL py
     | .error e => showTErr e
+
+/-- C02: is every `X` / `x` where `parse` says (hypothesis of `transpile_wf`), and is the emitted tree well formed -/
+def placedCmd (src : List Nat) : String :=
+  match parseTop (tokenise src) with
+  | .error e => s!"ERR parse {repr e}"
+  | .ok tree =>
+    let p := if placedL false false tree then "T" else "F"
+    match transpileAst (genEnv false) tree with
+    | .ok py => s!"placed={p} wf={if PyAst.wfL false false py then "T" else "F"}"
+    | .error e => s!"placed={p} wf=ERR {showTErr e}"
 
 def parseIntS (s : String) : Int := s.toInt?.getD 0
 def parseOptInt (s : String) : Option Int := if s == "N" then none else s.toInt?
@@ -311,6 +323,7 @@ def answer (cmd arg : String) : String :=
   | "quotify" => showOptCps (some (quotify (parseCps arg)))
   | "escstr" => showOptCps (some (escapeString (parseCps arg)))
   | "pybody" => showOptCps (pyStringBody (parseCps arg))
+  | "placed" => placedCmd (parseCps arg)
   | "transpile" => transpileCmd false (parseCps arg)
   | "transpileD" => transpileCmd true (parseCps arg)
   | "pydecode" => (match pyDecode (parseCps arg) with
